@@ -159,3 +159,115 @@ class HttpDriver:
 
 def _us(td: datetime.timedelta) -> int:
     return (td.days * 86400 + td.seconds) * 10**6 + td.microseconds
+
+
+# ---------------------------------------------------------------------------------------
+# static (vod / odvod) manifests: C06
+# ---------------------------------------------------------------------------------------
+def _ms_bounds(num: int, den: int) -> tuple[int, int]:
+    """floor and ceil of num/den seconds in milliseconds"""
+    lo = num * 1000 // den
+    hi = -((-num * 1000) // den)
+    return lo, hi
+
+
+class StaticDriver(HttpDriver):
+    def static_manifest(self, tid: int, stream: str, tmpl: str, mode: str, query: str,
+                        now: datetime.datetime) -> list[dict[str, Any]]:
+        self.da.clock.set(now)
+        url = f'{HOST}/dash/{mode}/{stream}/{tmpl}' + (('?' + query) if query else '')
+        r = self.get(url)
+        if r.status_code != 200:
+            return [{'tid': tid, 'ev': 'manifest_refused', 'status': r.status_code, 'url': url}]
+        try:
+            proj = M.project(r.data, url)
+        except Exception as err:
+            return [{'tid': tid, 'ev': 'manifest_unparsable', 'url': url, 'err': str(err)[:200]}]
+        ref_dur, ref_ts = self.reference(stream)
+        ref_lo, ref_hi = _ms_bounds(ref_dur, ref_ts)
+        if proj['mediaPresentationDuration'] is not None:
+            mpd_us = proj['mediaPresentationDuration']
+        else:
+            mpd_us = sum((p['duration'] or 0) for p in proj['periods'])
+        common = {'tid': tid, 'url': url, 'now': now.isoformat(), 'type': proj['type'],
+                  'mpd_dur_ms': mpd_us // 1000 if mpd_us % 1000 == 0 else -1, 'mpd_dur_us': str(mpd_us),
+                  'ref_ms_lo': ref_lo, 'ref_ms_hi': ref_hi}
+        lines: list[dict[str, Any]] = []
+        for period in proj['periods']:
+            for adp in period['adaptation_sets']:
+                for rep in adp['representations']:
+                    sf = self.stored_for(stream, rep['id'])
+                    if sf is None:
+                        lines.append({**common, 'ev': 'rep_unsupported', 'rep': rep['id']})
+                        continue
+                    if rep['segment_list'] is not None:
+                        lines.append(self._ondemand_rep(common, rep, sf))
+                    elif rep['template'] is not None and rep['template'].get('media'):
+                        lines.append(self._static_rep(common, stream, rep, sf, ref_dur, ref_ts))
+                    else:
+                        lines.append({**common, 'ev': 'rep_unsupported', 'rep': rep['id']})
+        return lines
+
+    def _static_rep(self, common, stream, rep, sf: StoredFile, ref_dur: int, ref_ts: int) -> dict[str, Any]:
+        tm = rep['template']
+        rid = rep['id']
+        ts = int(tm['timescale'] or 1)
+        sn = int(tm['startNumber'] or 1)
+        D = int(tm['duration']) if tm.get('duration') else max(sf.durs)
+        by = 'time' if '$Time$' in tm['media'] else 'number'
+        R = ref_dur * ts // ref_ts
+        line = {**common, 'ev': 'rep', 'mode': 'vod', 'rep': rid, 'by': by, 'ts': ts, 'D': D, 'sn': sn,
+                'durs': sf.durs, 'st': sf.segments[0].tfdt, 'R': R}
+        ri = self.get(urljoin(rep['base'], M.fill_template(tm['initialization'], rid, rep['bandwidth'])))
+        line['init'] = ri.status_code
+        keys: list[int] = []
+        serve = []
+        u = ''
+        if by == 'number':
+            line['tl'] = []
+            n_stored = len(sf.durs)
+            for n in range(sn, sn + n_stored):
+                u = urljoin(rep['base'], M.fill_template(tm['media'], rid, rep['bandwidth'], number=n))
+                keys.append(n)
+                serve.append(self._resp(self.get(u), sf, 0, 0, R))
+            pu = urljoin(rep['base'], M.fill_template(tm['media'], rid, rep['bandwidth'], number=sn + n_stored))
+            line['past'] = self.get(pu).status_code
+        else:
+            tl = rep['timeline'] or []
+            line['tl'] = tl
+            for x in tl:
+                u = urljoin(rep['base'], M.fill_template(tm['media'], rid, rep['bandwidth'], time=x['t']))
+                keys.append(x['t'])
+                serve.append(self._resp(self.get(u), sf, 0, 0, R))
+            past_t = (tl[-1]['t'] + tl[-1]['d']) if tl else 0
+            pu = urljoin(rep['base'], M.fill_template(tm['media'], rid, rep['bandwidth'], time=past_t))
+            line['past'] = self.get(pu).status_code
+        line['keys'] = keys
+        line['serve'] = serve
+        line['sample_url'] = path_of(u)
+        line['past_url'] = path_of(pu)
+        return line
+
+    def _ondemand_rep(self, common, rep, sf: StoredFile) -> dict[str, Any]:
+        sl = rep['segment_list']
+        rid = rep['id']
+
+        def rng(s: str | None) -> list[int]:
+            if not s or '-' not in s:
+                return [-1, -1]
+            a, b = s.split('-', 1)
+            try:
+                return [int(a), int(b)]
+            except ValueError:
+                return [-1, -1]
+        line = {**common, 'ev': 'ondemand', 'mode': 'odvod', 'rep': rid, 'base_url': path_of(rep['base']),
+                'init_range': rng(sl['init_range']), 'media_ranges': [rng(x) for x in sl['media_ranges']],
+                'seg_pos': [s.pos for s in sf.segments], 'seg_end': [s.pos + s.size for s in sf.segments],
+                'init_end': sf.init_end, 'flen': len(sf.data)}
+        fetched = []
+        for a, b in [line['init_range']] + line['media_ranges']:
+            rr = self.get(rep['base'], headers={'Range': f'bytes={a}-{b}'})
+            ok = 1 if (rr.status_code == 206 and rr.data == sf.data[a:b + 1]) else 0
+            fetched.append({'status': rr.status_code, 'ok': ok, 'a': a, 'b': b})
+        line['fetched'] = fetched
+        return line
